@@ -247,7 +247,7 @@ func (t *terminal) SendMouseRaw(btn MouseBtn, press bool, mods MouseFlag, x, y i
 	case MMNone:
 		return nil
 	case MMPress:
-		if !press {
+		if !press || mods&MMotion != 0 {
 			return nil
 		}
 	case MMPressRelease:
@@ -255,7 +255,8 @@ func (t *terminal) SendMouseRaw(btn MouseBtn, press bool, mods MouseFlag, x, y i
 			return nil
 		}
 	case MMPressReleaseMove:
-		if byte(mods)&mWhichBtn == byte(MRelease) {
+		// motion is only reported while a button is held
+		if mods&MMotion != 0 && byte(btn)&mWhichBtn == byte(MRelease) {
 			return nil
 		}
 	case MMPressReleaseMoveAll:
@@ -275,11 +276,9 @@ func (t *terminal) SendMouseRaw(btn MouseBtn, press bool, mods MouseFlag, x, y i
 			y = 255 - 32
 		}
 
-		mouseCmd := []byte("\033[M" + string(32+btnByte) + string(byte(32+x)) + string(byte(32+y)))
+		// three single bytes: string(byte) would UTF-8 encode values >= 128
+		mouseCmd := []byte{0x1b, '[', 'M', 32 + btnByte, byte(32 + x), byte(32 + y)}
 		_, err := t.Write(mouseCmd)
-		if err != nil {
-			panic(fmt.Sprintf("error %v", err))
-		}
 		return err
 
 	case MEUTF8:
